@@ -58,6 +58,13 @@ var MagClasses = []string{"zero", "one", "two", "r-1", "r-2", "half", "pow2", "p
 
 // Elem draws a field element of the given magnitude class below modulus m.
 func Elem(r *rand.Rand, class string, m *big.Int) *big.Int {
+	if m.BitLen() < 64 { // tiny fields: only the edge classes make sense
+		switch class {
+		case "zero", "one", "two", "r-1", "r-2", "half":
+		default:
+			return Below(r, m)
+		}
+	}
 	switch class {
 	case "zero":
 		return big.NewInt(0)
